@@ -347,6 +347,7 @@ def run_link_property(ctx, pid, gen_cases, oracle, classify, rule, nontrivial, a
         ctx.notes.append("%d scripts wedged (lock-up of finding F8, judged by C07/C16) and are inconclusive for this property" % wedged)
     model_ok = os.path.exists(os.path.join(C.COQ, "Run", "LinkRun.vo"))
     idx = [i for i, r in enumerate(results) if r is not None and "crash" not in r and not r.get("hang")
+           and not cases[i].get("ops")            # scripts with operations go through the reconfiguration model below
            and (model_filter is None or model_filter(cases[i]))]
     mism = {}
     if model_ok:
